@@ -2300,8 +2300,8 @@ def add_multi_instance():
     return handler_unit("*", "L2/AddMultiInstance", H + "add_multi_instance:AddMultiInstanceHandler", "AddMultiInstance", obls, registry=reg)
 
 
-# StartWaitingWorkflowsHandler (promotion of BUFFERED workflows when a concurrency slot frees up) is NOT under contract: it opens
-# one transaction per element inside a loop over a store query, which the trace views do not represent (DESIGN 9.3, C05/C06 notes).
+# StartWaitingWorkflowsHandler has its own unit further down (a transaction per element inside a summarised loop: the trace
+# views T1-T7 do not look into loop bodies, so its obligations are stated directly over the foreach effects).
 ALL += [cancel_region, add_multi_instance]
 
 
@@ -3527,3 +3527,106 @@ def _consts(t):
         elif z3.is_app(u):
             stack.extend(u.children())
     return out
+
+
+# ----------------------------------------------------------------------------- StartWaitingWorkflows
+def _wf_list_model(I, a, k):
+    """Assumed contract of WorkflowStore.retrieve_by_pipeline_config_id (dynamic SQL, not under contract): some list of
+    workflows, each with a status in criteria.statuses; the status every element had when loaded is kept as a ghost."""
+    from pyvc.typesys import fresh_value
+    from pyvc.values import SElem
+
+    n = T._counter(I, "wflist_n")
+    lst = fresh_value(I.st, I.typer, ("list", ("obj", "Workflow")), f"by_config{n}", det=True)
+    lrec = I.st.lists[lst.lid]
+    I.elem_getattr(SElem(lst.lid, (z3.Int("$probe"),)), "status")
+    arr0 = lrec.fields["status"]
+    crit = a[2] if len(a) > 2 else k.get("criteria")
+    sts = I.getattr(crit, "statuses")
+    items = I.st.lists[sts.lid].items
+    j = z3.Int("$wfj")
+    I.st.assume(z3.ForAll([j], z3.Implies(z3.And(j >= 0, j < lrec.length), z3.Or(*[z3.Select(arr0, j) == it.t for it in items]))))
+    lrec.meta["loaded"] = {"kind": "workflow_list", "how": "by_config", "status0": arr0, "criteria": [it.t for it in items]}
+    I.st.emit("load", obj=lst, kind="workflow_list", how="by_config")
+    I.st.assumptions.add("assumed:WorkflowStore.retrieve_by_pipeline_config_id returns only workflows whose status is in criteria.statuses (dynamic SQL, not under contract)")
+    I.st.assumptions.add("list.sort(key=...) is a permutation: the list is treated as unordered afterwards (FIFO order of the promotion is not decided)")
+    return lst
+
+
+def _sww_post(ctx):
+    """StartWaitingWorkflows on the real _handle_with_retry (a transaction per promoted workflow inside the loop):
+    every workflow status write is BUFFERED -> NOT_STARTED on a workflow that was loaded BUFFERED (C06: legal by the real
+    table; C02: a redelivery finds nothing to promote twice), it is in one commit with exactly one StartWorkflow for that
+    workflow (C01/C05: a promoted workflow is never left without its start message), nothing that commits on its own
+    runs inside that transaction (T7), and the processed mark is a transaction of its own after the loop (C09)."""
+    I = ctx.I
+    goals = []
+    n_upd = 0
+    for fe in ctx.st.effects:
+        if fe.kind != "foreach":
+            continue
+        body = fe.data["body"]
+        kinds = [b.kind for b in body]
+        for n, (e, g) in enumerate((e, g) for e, g in T.flat([fe]) if e.kind == "update_workflow"):
+            n_upd += 1
+            wf = e.data["workflow"]
+            ld = I.st.lists[wf.lid].meta.get("loaded", {}) if hasattr(wf, "lid") else {}
+            new = e.data["status"].t
+            goals.append((f"wf{n_upd}.written-status-is-NOT_STARTED", z3.Implies(g, new == status(I, "NOT_STARTED"))))
+            ok_ld = "status0" in ld
+            goals.append((f"wf{n_upd}.workflow-comes-from-the-buffered-query", z3.BoolVal(ok_ld and len(ld.get("criteria", [])) == 1)))
+            if ok_ld:
+                cur = z3.Select(ld["status0"], wf.idx[0])
+                goals.append((f"wf{n_upd}.loaded-BUFFERED", z3.Implies(g, cur == status(I, "BUFFERED"))))
+                goals.append((f"wf{n_upd}.legal-transition", z3.Implies(g, can_transition(I, cur, new))))
+            tid = e.data["txn"]
+            pushes = [b for b in body if b.kind == "push" and b.data["txn"] == tid]
+            goals.append((f"wf{n_upd}.one-start-message-in-the-same-transaction", z3.BoolVal(len(pushes) == 1 and pushes[0].data["cls"] == "StartWorkflow")))
+            if len(pushes) == 1:
+                goals.append((f"wf{n_upd}.start-message-names-this-workflow", z3.Implies(g, I.ops.eq(I.getattr(pushes[0].data["msg"], "execution_id"), I.getattr(wf, "id")))))
+            ib, ic = [x for x, b in enumerate(body) if b.kind == "txn_begin" and b.data["txn"] == tid], [x for x, b in enumerate(body) if b.kind == "txn_commit" and b.data["txn"] == tid]
+            goals.append((f"wf{n_upd}.transaction-commits", z3.BoolVal(len(ib) == 1 and len(ic) == 1)))
+            if len(ib) == 1 and len(ic) == 1:
+                inside = body[ib[0] + 1:ic[0]]
+                goals.append((f"wf{n_upd}.nothing-else-commits-inside", z3.BoolVal(all(b.kind in ("update_workflow", "push") for b in inside) and sum(b.kind == "update_workflow" for b in inside) == 1)))
+        # a push of StartWorkflow without the status write in its transaction would start a workflow that is still BUFFERED
+        for b in body:
+            if b.kind in ("push", "queue_push") and b.data.get("cls") == "StartWorkflow":
+                goals.append((f"push-with-status-write", z3.BoolVal(any(x.kind == "update_workflow" and x.data["txn"] == b.data.get("txn") for x in body))))
+    truthy, mid = P.msg_id_truthy(ctx)
+    marks = [(x, e) for x, e in enumerate(ctx.st.effects) if e.kind == "mark"]
+    loops = [x for x, e in enumerate(ctx.st.effects) if e.kind == "foreach"]
+    if loops:
+        has = z3.Or(*[I.ops.eq(e.data["message_id"], mid) for _, e in marks]) if marks else z3.BoolVal(False)
+        goals.append(("mark.after-the-loop-when-the-message-has-an-id", z3.Implies(truthy, has)))
+        goals.append(("mark.not-before-a-promotion", z3.BoolVal(all(x > max(loops) for x, _ in marks))))
+    goals.append(("no-stage-write", z3.BoolVal(not P.stores(ctx, committed_only=False))))
+    return goals
+
+
+def _sww_cover(ctx):
+    """Vacuity guard: some path promotes a workflow (an update_workflow inside the loop) -- a canary that must FAIL."""
+    has = any(e.kind == "update_workflow" for e, _ in T.flat(ctx.st.effects))
+    return [("no-path-promotes", z3.BoolVal(not has))]
+
+
+def _sww_sel(*keys):
+    def check(ctx):
+        return [(n, gl) for n, gl in _sww_post(ctx) if any(k in n for k in keys)]
+    return check
+
+
+def start_waiting_workflows():
+    reg = run_task_registry()
+    reg.methods[("WorkflowStore", "retrieve_by_pipeline_config_id")] = _wf_list_model
+    obls = [
+        Obl("C06/T3/StartWaitingWorkflows", _sww_sel("written-status", "loaded-BUFFERED", "legal-transition", "buffered-query", "no-stage-write"), when="any"),
+        Obl("C05/promote/StartWaitingWorkflows", _sww_sel("start-message", "transaction-commits", "push-with-status-write"), when="any", canary=_sww_cover),
+        Obl("C01/T6/StartWaitingWorkflows", _sww_sel("start-message", "transaction-commits", "nothing-else-commits-inside", "push-with-status-write"), when="any"),
+        Obl("C02/guard/StartWaitingWorkflows", _sww_sel("loaded-BUFFERED", "buffered-query"), when="any"),
+        Obl("C09/mark/StartWaitingWorkflows", _sww_sel("mark."), when="any"),
+    ]
+    return handler_unit("*", "L2/StartWaitingWorkflows", H + "start_waiting_workflows:StartWaitingWorkflowsHandler", "StartWaitingWorkflows", obls, registry=reg, method="_handle_with_retry")
+
+
+ALL += [start_waiting_workflows]
